@@ -334,33 +334,47 @@ def check_cdist(r, rule):
     rep.ob(rule, q, bool(oks), "the matrix has shape (mA, mB)", w, expected="np.empty((mA, mB))", found=show(alloc, 80), key="cdist shape")
 
 
-def run(r):
+def metric_rules(r, pre=""):
+    """Value rules of the Levenshtein metric classes (also run for properties whose functions reach these classes: rule names get the prefix)."""
     rep = r.rep
-    rep.explanation = "The rapidfuzz call configuration of the metric classes and the loop nests of the functional helpers were analysed on the current tree."
     rep.trust(LIB_FACTS["rapidfuzz.weights"], LIB_FACTS["rapidfuzz.cdist"], LIB_FACTS["squareform"], "DESIGN Appendix A.7 (condensed layout)")
-    # purity first: cheap, robust, and a recorded violation takes precedence over a later 'cannot decide'
-    check_pure_params(r, "C08-PURE", [L + "WeightedLevenshtein.calc_cdist_matrix", L + "WeightedLevenshtein.calc_pdist_vector", L + "Levenshtein.calc_cdist_matrix", L + "Levenshtein.calc_pdist_vector", "pyrepseq.distance.pdist", "pyrepseq.distance.cdist"])
-    check_scorer(r, "C08-W", L + "WeightedLevenshtein.__init__")
-    check_scorer(r, "C08-W", "pyrepseq.metric.tcr_metric.tcr_levenshtein.TcrLevenshtein.__init__")
+    check_scorer(r, pre + "C08-W", L + "WeightedLevenshtein.__init__")
     eq = Equiv(rewrites=std_rewrites() + [cdist_rewrite], modelled={"rapidfuzz.process.cdist", "scipy.spatial.distance.squareform"} | TRIANGLE_SELECTORS)
-    compare_function(r, "C08-CD", L + "WeightedLevenshtein.calc_cdist_matrix", SPEC, "cdist[i, j] = scorer(anchors[i], comparisons[j]): anchors first, no narrow dtype, no cut-off", fname="calc_cdist_matrix", eq=eq, key="cdist call")
-    compare_function(r, "C08-PV", L + "WeightedLevenshtein.calc_pdist_vector", SPEC, "pdist vector = squareform(checks=False) of the self cdist of one and the same collection", fname="calc_pdist_vector", eq=eq, key="pdist vector")
+    compare_function(r, pre + "C08-CD", L + "WeightedLevenshtein.calc_cdist_matrix", SPEC, "cdist[i, j] = scorer(anchors[i], comparisons[j]): anchors first, no narrow dtype, no cut-off", fname="calc_cdist_matrix", eq=eq, key="cdist call")
+    compare_function(r, pre + "C08-PV", L + "WeightedLevenshtein.calc_pdist_vector", SPEC, "pdist vector = squareform(checks=False) of the self cdist of one and the same collection", fname="calc_pdist_vector", eq=eq, key="pdist vector")
     s = r.A.summary(L + "Levenshtein.__init__")
     v = s.env.get(("@attr", ("param", "self"), "_weighted_levenshtein"))
     if v is not None:
         # (without the delegate attribute the class was restructured: the delegation rules have nothing to say, see below)
-        compare_function(r, "C08-LV", L + "Levenshtein.calc_cdist_matrix", SPEC, "Levenshtein delegates calc_cdist_matrix to its WeightedLevenshtein", fname="lev_cdist", eq=eq, key="delegate cdist")
-        compare_function(r, "C08-LV", L + "Levenshtein.calc_pdist_vector", SPEC, "Levenshtein delegates calc_pdist_vector to its WeightedLevenshtein", fname="lev_pdist", eq=eq, key="delegate pdist")
+        compare_function(r, pre + "C08-LV", L + "Levenshtein.calc_cdist_matrix", SPEC, "Levenshtein delegates calc_cdist_matrix to its WeightedLevenshtein", fname="lev_cdist", eq=eq, key="delegate cdist")
+        compare_function(r, pre + "C08-LV", L + "Levenshtein.calc_pdist_vector", SPEC, "Levenshtein delegates calc_pdist_vector to its WeightedLevenshtein", fname="lev_pdist", eq=eq, key="delegate pdist")
     vv = strip_all(v) if v is not None else None
     okd = vv is not None and head(vv) == "call" and vv[1] == ("glob", L + "WeightedLevenshtein") and len(vv[2]) <= 3 and all(is_const(a, 1) for a in vv[2]) \
         and all(k in ("insertion_weight", "deletion_weight", "substitution_weight") and is_const(x, 1) for k, x in vv[3])
     if v is None:
-        rep.require(False, f"{L}Levenshtein.__init__: no attribute _weighted_levenshtein is set (the delegation was restructured); cannot decide [C08-LV]")
+        rep.require(False, f"{L}Levenshtein.__init__: no attribute _weighted_levenshtein is set (the delegation was restructured); cannot decide [{pre}C08-LV]")
     else:
-      rep.ob("C08-LV", L + "Levenshtein.__init__", okd, "the delegate is a default-constructed (unit weight) WeightedLevenshtein", where_of(r.P, s.func, s.func.node), expected="WeightedLevenshtein()", found=show(v, 60), key="delegate ctor")
-    check_pdist(r, "C08-LNE")
-    check_cdist(r, "C08-LNE")
-    for rule, fl in (("C08-PURE", 12), ("C08-W", 2), ("C08-CD", 1), ("C08-PV", 1), ("C08-LV", 3), ("C08-LNE", 12)):
+      rep.ob(pre + "C08-LV", L + "Levenshtein.__init__", okd, "the delegate is a default-constructed (unit weight) WeightedLevenshtein", where_of(r.P, s.func, s.func.node), expected="WeightedLevenshtein()", found=show(v, 60), key="delegate ctor")
+    for rule, fl in (("C08-W", 1), ("C08-CD", 1), ("C08-PV", 1), ("C08-LV", 3)):
+        rep.floor(pre + rule, fl)
+
+
+def functional_rules(r, pre=""):
+    """Loop-nest rules of the functional pdist / cdist helpers."""
+    check_pdist(r, pre + "C08-LNE")
+    check_cdist(r, pre + "C08-LNE")
+    r.rep.floor(pre + "C08-LNE", 12)
+
+
+def run(r):
+    rep = r.rep
+    rep.explanation = "The rapidfuzz call configuration of the metric classes and the loop nests of the functional helpers were analysed on the current tree."
+    # purity first: cheap, robust, and a recorded violation takes precedence over a later 'cannot decide'
+    check_pure_params(r, "C08-PURE", [L + "WeightedLevenshtein.calc_cdist_matrix", L + "WeightedLevenshtein.calc_pdist_vector", L + "Levenshtein.calc_cdist_matrix", L + "Levenshtein.calc_pdist_vector", "pyrepseq.distance.pdist", "pyrepseq.distance.cdist"])
+    metric_rules(r)
+    check_scorer(r, "C08-W", "pyrepseq.metric.tcr_metric.tcr_levenshtein.TcrLevenshtein.__init__")
+    functional_rules(r)
+    for rule, fl in (("C08-PURE", 12), ("C08-W", 2)):
         rep.floor(rule, fl)
 
 
